@@ -8,7 +8,7 @@ ID = "C15"
 RULE = ("case = operation history (<= 500 ops: set!, update!, update!/default, ref, ref/default, exists?, delete!, size, copy, merge!, fold, walk-dump; values are numbers and sometimes #f / () / symbols; equal? probes on cyclic and beyond-budget structures that differ in one leaf) "
         "on two SRFI 69 tables of a drawn kind (equal?, eqv?, eq?, string=?+string-hash, user equivalence+hash written in Scheme), keys "
         "drawn so that several regrows and long chains occur and so that equal? keys are built by different computation routes "
-        "(bignum arithmetic routes, string literal/append/mutation/substring, quoted vs constructed lists/vectors/bytevectors, flonums "
+        "(bignum arithmetic routes, string literal/append/widening and narrowing mutation/substring/string port/utf8 round trip, quoted vs constructed lists/vectors/bytevectors, flonums "
         "incl. -0.0) x world (heap placement: tape-chosen junk allocations before the run shift every address and with it identity-hash "
         "buckets; forced collections at every allocation inside tape-marked operations incl. regrow; a second green thread allocating "
         "while the main thread is preempted inside hash/equality callbacks with slice length 1). Each operation's result and every dump "
